@@ -2,7 +2,11 @@
 
 package main
 
-import "fmt"
+import (
+	"fmt"
+	"go/ast"
+	"strings"
+)
 
 func init() { register("C20", factsC20) }
 
@@ -39,9 +43,39 @@ func factsC20(r *Repo) []Fact {
 			}
 		}
 		out = append(out, boolFact("compileReturnsStoredErrFirst", first, "compose/"+file+": compile: first statement returns g.buildError"))
+		// a loop over g.nodes that returns an error for a node whose input or output type is nil,
+		// placed before the runner tables are built (first mention of chanSubscribeTo)
+		checks := false
+		recv := c20Recv(fd)
+		for _, st := range fd.Body.List {
+			if strings.Contains(c20StmtIdents(st), "chanSubscribeTo") {
+				break
+			}
+			rs, ok := st.(*ast.RangeStmt)
+			if !ok || exprString(rs.X) != recv+".nodes" {
+				continue
+			}
+			for _, bs := range rs.Body.List {
+				is, ok := bs.(*ast.IfStmt)
+				if !ok {
+					continue
+				}
+				cond := exprString(is.Cond)
+				if !strings.Contains(cond, "inputType()==nil") || !strings.Contains(cond, "outputType()==nil") || !strings.Contains(cond, "||") {
+					continue
+				}
+				for _, x := range is.Body.List {
+					if r, ok := x.(*ast.ReturnStmt); ok && len(r.Results) == 2 && exprString(r.Results[0]) == "nil" && exprString(r.Results[1]) != "nil" {
+						checks = true
+					}
+				}
+			}
+		}
+		out = append(out, boolFact("compileChecksNodeTypes", checks, "compose/"+file+": compile: `for … range g.nodes { if node.inputType() == nil || node.outputType() == nil { return nil, err } }` before the runner tables are built"))
 	} else {
 		out = append(out, unknownFact("compileAssigns", "List String", "[]", "compose", "method graph.compile not found"))
 		out = append(out, unknownFact("compileReturnsStoredErrFirst", "Bool", "false", "compose", "method graph.compile not found"))
+		out = append(out, unknownFact("compileChecksNodeTypes", "Bool", "false", "compose", "method graph.compile not found"))
 	}
 	return out
 }
